@@ -44,3 +44,24 @@ func VerifTargets(strategy RESTScopeStrategy, ids object.ObjMetadataSet) (string
 	}
 	return "invalid", nil
 }
+
+// VerifFatalSeq hands a sequence of errors to handleFatalError of one reporter, as its informers' handlers do one after the
+// other, and returns the texts of the error events sent and whether the reporter was stopped.
+func VerifFatalSeq(errs []error) (sent []string, stopped bool) {
+	ctx, cancel := context.WithCancel(context.Background())
+	defer cancel()
+	w := &ObjectStatusReporter{context: ctx, cancel: cancel}
+	ch := make(chan event.Event, len(errs)+1)
+	for _, e := range errs {
+		w.handleFatalError(ch, e)
+	}
+	close(ch)
+	for e := range ch {
+		if e.Type == event.ErrorEvent && e.Error != nil {
+			sent = append(sent, e.Error.Error())
+		} else {
+			sent = append(sent, "<not an error event>")
+		}
+	}
+	return sent, ctx.Err() != nil
+}
